@@ -594,6 +594,26 @@ def run_seq(cfg, route, vals, ctx):
                     return i, "domain/outside", "%s: %s" % (where, uuid_domain(obj.x))
                 if route != "ctor" and (obj.other != 7 or obj.tag != "u"):
                     return i, "effects/other-attribute", "%s: other attributes changed" % where
+                if cfg["kind"] == "dynenum" and route != "ctor":
+                    # the collection is read at assignment time: once the value just stored is no longer a member,
+                    # assigning the very same value again is a rejection
+                    keep = list(obj.vals)
+                    rest = [m for m in keep if not (m is v or (type(m) is type(v) and m == v))]
+                    if len(rest) < len(keep) and rest:
+                        obj.vals = rest
+                        try:
+                            obj.x = v
+                            again = "accepted"
+                        except TraitError:
+                            again = "rejected"
+                        except Exception as e:
+                            again = "raised %r" % (e,)
+                        obj.vals = keep
+                        ctx.label("dynenum-collection-shrunk")
+                        if again != "rejected":
+                            return i, "reference/accepted-outside-domain", "%s: after the collection shrank to %r the same value was %s again" \
+                                % (where, rest, again)
+                        obj.x = v
                 continue
             if obj is not old or snap(obj) != before:
                 return i, "effects/changed-on-failure", "%s: raised %r but the object's state changed" % (where, out[1])
